@@ -539,6 +539,8 @@ class CallMixin(object):
         if t[0] != "elem":
             return None
         coll = strip_wrappers(t[1])
+        while coll[0] == "slice":
+            coll = strip_wrappers(coll[1])
         if coll[0] == "call" and coll[1] in (".values", ".items") and coll[2] and \
                 coll[2][0][0] == "reg":
             reg = coll[2][0]
